@@ -184,11 +184,15 @@ def _pipe_cases(tier, rng):
     n = 700 if tier == "quick" else 7000
     for _ in range(n):
         (ta, a), (tb, b) = rng.choice(g), rng.choice(g)
+        if rng.random() < 0.4 and ta[0] not in ("array", "any"):
+            # a pair on which "element" and "array of elements" disagree: the verdict then depends on whether the edge is
+            # judged as a reduction (random pairs almost never tell the two apart)
+            tb = rng.choice((("array", ta), ta))
         yield {"src": ta, "dst": tb, "wiring": rng.choice(("direct", "elementwise", "reduction", "reduction-mapped-consumer")),
                "validate": rng.random() < 0.85,
                # how the mapped producer gets its axes: from one input, from two zipped inputs, or one axis from each of
                # two inputs (outer product)
-               "producer": rng.choice(("single", "single", "zip", "outer"))}
+               "producer": rng.choice(("single", "single", "zip", "outer")), "same_index": rng.random() < 0.5}
     # one mapped output with two consumers, one through a reduction and one element-wise, in both listing orders:
     # every edge is judged on its own
     for _ in range(n // 3):
@@ -270,7 +274,10 @@ def _check_pipe(case):
             return 1
         consumer2.__annotations__ = {"y": b, "a": int, "return": int}
         f = pipefunc(output_name="y", mapspec=pspec)(producer)
-        g = pipefunc(output_name="z", mapspec="a[k] -> z[k]")(consumer2)
+        # (the other argument's index may bear the name of the axis that is reduced: the edge is judged by the consumer's
+        #  spec for y - which has none -, not by the index names the consumer uses elsewhere)
+        kx = "i" if case.get("same_index") else "k"
+        g = pipefunc(output_name="z", mapspec=f"a[{kx}] -> z[{kx}]")(consumer2)
         src = case["src"] if case["src"][0] == "array" else ("array", case["src"])
         edge_ok = ref_compat(src, case["dst"])
     else:  # reduction: the consumer receives Array[a] (whole, or - for a two-dimensional output - row by row)
